@@ -39,6 +39,28 @@ def bnBytesEncode (z : Int) : BN.Bytes := BN.toDigits 256 z.natAbs
 def bnDecEncode (z : Int) : BN.Text :=
   if z < 0 then '-' :: BN.Spec.digitsText 10 z.natAbs else BN.Spec.digitsText 10 z.natAbs
 
+/-- what serde writes for a `BigNumber` in a non-human-readable format -/
+inductive BinForm where
+  | bytes (b : BN.Bytes)
+  | text (t : BN.Text)
+deriving Repr, BEq, DecidableEq
+
+/-- `impl Serialize for BigNumber`, `is_human_readable() = false`: under OpenSSL the magnitude
+bytes for a non-negative number and DECIMAL TEXT for a negative one (the bytes cannot carry the
+sign); the pure-Rust back-end writes decimal text always -/
+def bnBinEncode (b : Backend) (z : Int) : BinForm :=
+  match b with
+  | .openssl => if z < 0 then .text (bnDecEncode z) else .bytes (bnBytesEncode z)
+  | .rust => .text (bnDecEncode z)
+
+/-- `Deserialize`: OpenSSL reads text and bytes alike (`deserialize_any`); the pure-Rust back-end
+reads text only (`deserialize_str`) -/
+def bnBinDecode (b : Backend) : BinForm → Outcome Int
+  | .text t => implBnText b 10 t
+  | .bytes bs => match b with
+    | .openssl => implBnBytes bs
+    | .rust => err
+
 /-- scalars: the decoder of the repository is the specification (hex digits only, 1..71 of them,
 reduced modulo `r`; at most 32 bytes, reduced) -/
 def implScText (s : String) : Outcome Sc.Scalar := Sc.fromString s
